@@ -366,7 +366,7 @@ unsafe impl<const K: u8> RefCnt for Tp<K> {
 // `Val`: what the workloads need from a stored value; implemented for the tracked pointer and for
 // real `Arc`s (so that nothing depends on `Tp`'s own peculiarities).
 
-pub trait Val: RefCnt + Clone + Send + Sync + 'static {
+pub trait Val: RefCnt + Clone + Send + Sync + std::fmt::Debug + 'static {
     const NAME: &'static str;
     fn fresh(id: u64) -> Self;
     fn none() -> Self;
@@ -465,6 +465,20 @@ impl<const K: u8> Val for Tp<K> {
         if addr != 0 {
             unsafe { &*(addr as *const Obj) }.owners.fetch_add(d, Relaxed);
         }
+    }
+}
+
+impl<const K: u8> std::fmt::Debug for Tp<K> {
+    /// Reads the payload through the handle (a monitored dereference).
+    fn fmt(&self, f: &mut std::fmt::Formatter) -> std::fmt::Result {
+        write!(f, "Tp({:x})", self.read())
+    }
+}
+
+impl std::fmt::Debug for Payload {
+    fn fmt(&self, f: &mut std::fmt::Formatter) -> std::fmt::Result {
+        let [a, _] = unsafe { std::ptr::read_volatile(self.cell.get()) };
+        write!(f, "Payload({:x})", a)
     }
 }
 
